@@ -220,6 +220,9 @@ def gen_crafted(rng, target="binary"):
     unit = rng.choice([10, 20])
     grid = [1, 2, 3, 5, 5, 6, 8] if target == "binary" else [1, 2, 3, 5, 5, 6, 8]
 
+    # continuous targets of small magnitude (group means around 1e-4, exact dyadic numbers): rounding the means shows
+    yscale = 2.0 ** -14 if (target != "binary" and rng.random() < 0.15) else 1
+
     def sample(rates, sizes, nan_size, nan_rate):
         vals, ys = [], []
         for lv, r, sz in list(zip(levels, rates, sizes)) + ([(None, nan_rate, nan_size)] if nan_size else []):
@@ -229,7 +232,7 @@ def gen_crafted(rng, target="binary"):
                 if target == "binary":
                     ys.append(1 if j < n1 else 0)
                 else:
-                    ys.append(r + (1 if j < sz // 2 else -1) * (j % 2))       # mean r (exactly when sz is a multiple of 4), ties in y
+                    ys.append((r + (1 if j < sz // 2 else -1) * (j % 2)) * yscale)       # mean r (exactly when sz is a multiple of 4), ties in y
         order = list(range(len(vals))); rng.shuffle(order)
         return [vals[i] for i in order], [ys[i] for i in order]
 
@@ -243,7 +246,7 @@ def gen_crafted(rng, target="binary"):
         # min_freq_mod threshold, so that any rounding of the frequencies before the comparison shows
         # (1 in 4 of these: ten times larger, one row is then less than 5e-5 of the sample - rounding to 4 decimals shows)
         mult = [rng.choice([10, 15, 20, 25]) for _ in levels]
-        unit = max(40, 24000 // sum(mult)) if rng.random() < 0.25 else 40      # about 24000 rows in the larger variant
+        unit = max(40, 24000 // sum(mult)) if rng.random() < 0.5 else 40       # about 24000 rows in the larger variant
         sizes = [unit * m for m in mult]
         nan_size = unit * rng.choice([0, 0, 5])
         total = sum(sizes) + nan_size
@@ -252,7 +255,7 @@ def gen_crafted(rng, target="binary"):
         total_others = total - sizes[i]
         # size s with s / (total_others + s) just below thr:  s < thr * total_others / (1 - thr)
         s_star = int(thr * total_others / (1 - thr))
-        sizes[i] = max(1, s_star - rng.choice([0, 0, 1, 2]))
+        sizes[i] = max(1, s_star - rng.choice([0, 0, 0, 1, 2]))
         hint = thr
     heavy_nan = hint is None and rng.random() < 0.12
     if heavy_nan:
